@@ -149,3 +149,7 @@ package domain
 //@   requires fc != nil && len(fc.Include) < 1000000
 //@   loop 1 invariant forall j int :: 0 <= j && j < i$1 ==> fc.Include[j] != "*"
 //@   ensures res <==> (len(fc.Include) == 0 || (exists i int :: 0 <= i && i < len(fc.Include) && fc.Include[i] == "*"))
+
+//@ func NewModelRegistryError
+//@   property C10
+//@   ensures res != nil && fresh(res)
